@@ -9,7 +9,7 @@ NOT_APPLICABLE = {}
 TEXT = {
     "C01": {
         "technique": "property-based testing (rapid): grammar-directed generator + reference printer/expected-parse oracle; parser and live-connection legs",
-        "level_text": "Generated well-formed messages (tags, all source forms, 0-14 middles, multi-space gaps, trailing, CTCP) are rendered by a reference printer; ParseLine, Text/Target/Public and the line a handler receives over a real connection are compared with the components the generator chose. Sampling, not proof: 20k cases quick, 2M thorough.",
+        "level_text": "Generated well-formed messages (tags, all source forms, 0-14 middles, multi-space gaps, trailing, CTCP) are rendered by a reference printer; ParseLine, Text/Target/Public and the line a handler receives over a real connection are compared with the components the generator chose; every message is parsed a second time with the letter case of its source flipped; on a fraction of the connection cases the message arrives in two reads with a transient read error between them; a concurrent leg has 2-6 goroutines parse their own messages at once. Sampling, not proof: 63k cases quick, 2M thorough.",
         "level_note": "Trusted: the reference printer and expected-parse function in harness/props/c01_test.go (written from RFC 2812 2.3.1, the IRCv3 tag spec and line.go's doc comments). Inputs the statement leaves open are never generated.",
     },
     "C02": {
@@ -19,7 +19,7 @@ TEXT = {
     },
     "C08": {
         "technique": "property-based testing (rapid) + native fuzzing: hostile argument generator over all 28 command methods, wire-byte predicate oracle",
-        "level_text": "Each exported command method is called with generated hostile strings in every fixed and variadic position and with all interesting SplitLen values; the bytes that call put on the wire (delimited by two unforgeable marker lines) must be whole CRLF-terminated lines free of CR/LF, each starting with the method's verb; Raw must write exactly the prefix before the first newline. A session leg repeats the calls with flood control on (from construction, or switched on through Config() on the live client) and while the client is not connected (after Close / server EOF), then reconnects and examines the whole transcript of the new connection.",
+        "level_text": "Each exported command method is called with generated hostile strings in every fixed and variadic position and with all interesting SplitLen values; the bytes that call put on the wire (delimited by two unforgeable marker lines) must be whole CRLF-terminated lines free of CR/LF, each starting with the method's verb; Raw must write exactly the prefix before the first newline. A long-stall leg keeps the queue full behind a server that does not read for 5.6 s while hostile calls wait. A session leg repeats the calls with flood control on (from construction, or switched on through Config() on the live client) and while the client is not connected (after Close / server EOF), then reconnects and examines the whole transcript of the new connection.",
         "level_note": "Trusted: the scripted server's transcript and the marker delimiting. Sampling (30k calls quick, 2.4M + fuzzing thorough).",
     },
     "C11": {
@@ -39,7 +39,7 @@ TEXT = {
     },
     "C04": {
         "technique": "model-based stateful property testing (rapid): generated Handle/HandleFunc/HandleBG/Remove/event/in-handler/racing histories against a multiset model",
-        "level_text": "Histories over registration, removal (first/middle/last/only, long lists), events in any letter case, one-shot in-handler scripts (self-removal, removal of another handler, registration in the same or the other set) and registrations/removals racing with an event are executed on a live connection; per event the set of invoked handlers must equal the model's foreground list at dispatch and background list at background dispatch (pinned with sentinels), exactly once each.",
+        "level_text": "Histories over registration, removal (first/middle/last/only, long lists), events in any letter case, one-shot in-handler scripts (self-removal, removal of another handler, registration in the same or the other set) and registrations/removals racing with an event are executed on a live connection; per event the set of invoked handlers must equal the model's foreground list at dispatch and background list at background dispatch (pinned with sentinels), exactly once each. A population leg registers permanent struct-pointer handlers on 6-20 names (some values twice), a list of 63-257 handlers on one name, adds and removes handlers on up to 1000 other names between rounds, and counts one run per live registration per event.",
         "level_note": "Racing operations fix only the outcome after the racing call returned ('maybe' during the event in flight). Scheduling is perturbed, not controlled.",
     },
     "C09": {
